@@ -73,6 +73,28 @@ def make(kind, p):
                 b.add(f"r{i}", RWreg(8 + 4 * i))
         x = csr.Bridge(b.as_memory_map())
         return x, [x.bus]
+    if kind == "bridge_names":
+        # register names whose flattened forms coincide with each other or with the bridge's own submodule
+        b = csr.Builder(addr_width=5, data_width=8)
+        for i, path in enumerate(p):
+            import contextlib
+            with contextlib.ExitStack() as es:
+                for s in path[:-1]:
+                    es.enter_context(b.Cluster(s) if isinstance(s, str) else b.Index(s))
+                b.add(path[-1], RWreg(8))
+        x = csr.Bridge(b.as_memory_map())
+        return x, [x.bus]
+    if kind == "register_paths":
+        def nest(path, leaf):
+            return leaf if not path else {path[0]: nest(path[1:], leaf)}
+        fields = {}
+        for path in p:
+            cur = fields
+            for s in path[:-1]:
+                cur = cur.setdefault(s, {})
+            cur[path[-1]] = csr.Field(action.RW, 2)
+        x = csr.Register(fields, access="rw")
+        return x, [x]
     if kind == "eventmonitor":
         k, dw, al, trg = p
         em = event.EventMap()
@@ -351,6 +373,12 @@ def configs(tier):
             T.append(("mux", ((a, b), 3, 2, 0, so)))
     for sc in itertools.product([(), ("c",), (0,), ("c", 1), (2, "d")], repeat=2):
         T.append(("bridge", sc))
+    name_sets = [(("mux",),), (("a", "b"), ("a__b",)), (("a__b",), ("a", "b")), (("a", "b"), ("a__b",), ("a__b__2",), ("mux",)),
+                 ((0, "x"), ("0__x",)), (("a", 1, "r"), ("a__1", "r"), ("a", "1__r")), (("bridge",), ("bus",), ("element",)),
+                 (("a",), ("b",)), (("x", "mux"), ("mux", "x"))]
+    for ns in name_sets:
+        T.append(("bridge_names", ns))
+        T.append(("register_paths", tuple(tuple(str(s) for s in path) for path in ns)))
     for k in range(0, 6):
         for dw in (1, 2, 3, 8, 0):
             for al in (0, 1, 2, 3) if not quick else (0, 2):
